@@ -599,6 +599,11 @@ class C06(Prop):
                      'spec shared with a differential correspondence check (value-directed generator, forced hash-set orders, independent oracles)',
     }
 
+    def extract_tables(self, repo):
+        """tie: the decision structure of the stock matchers' match() methods, re-read from the tree (harness/pymatch2lean.py)"""
+        from harness import pymatch2lean
+        return {'TTV/Generated/MatchSrc.lean': pymatch2lean.generate(repo)}
+
     def __init__(self):
         self._cat = None
         self.unmodelled = None
